@@ -47,7 +47,7 @@ ASSUMPTIONS = ["reference closure / participation / lookup / typing computed fro
                "models keep links along associations that are used under a transitive operator acyclic (DESIGN defect (c) "
                "would make attack-graph generation run for ever otherwise); a model on which the classes factory, the model "
                "or the attack-graph generator raises is skipped for the over-approximation clause (other properties); when it "
-               "is the generator that raises on a saturated language, the clause is evaluated for that model on each "
+               "is the generator that raises on a saturated language, the clause is evaluated for the first such model of a case on each "
                "single-step sub-language instead (one rejected step must not hide the edges of the others); all "
                "single-step sub-languages of a language share assets / associations, so one classes factory and model serve them",
                "any exception raised by LanguageGraph() counts as 'reported' for an ill-formed language"]
@@ -316,6 +316,7 @@ def _overapprox(r, spec, lg, recipe):
     except Exception:
         return 0
     edges = 0
+    isolated = False
     for k in range(recipe["models"]):
         n = 2 if k == 0 else (rnd.randint(1, 3) if recipe["models"] > 3 else 3)
         mrec = L.random_model_recipe(spec, rnd, n, rnd.choice((0.5, 0.8, 1.0)))
@@ -326,7 +327,9 @@ def _overapprox(r, spec, lg, recipe):
         try:
             g = AttackGraph(lg, model)
         except Exception:
-            edges += _overapprox_isolated(r, spec, mrec)
+            if not isolated:               # only for the first such model of a case (cost: one generation per step)
+                isolated = True
+                edges += _overapprox_isolated(r, spec, mrec)
             continue
         edges += _check_edges(r, spec, lg, g, mrec)
     return edges
